@@ -12,6 +12,7 @@ Case grammar sent to `drv_validators`:
     CASE <id> <validation enabled 0|1>
     FT/KEY/VAL <tokens>          PRE <hex of the field's bytes before>
     OBS ok | err <ExceptionClass>   POST <hex after>   OUT <1 if a byte outside the field changed>   RB <scalars read back>
+    MSG <offset of the field in the top-level message> <hex of the whole message before> <hex after>     (optional)
     END
     CTX <id> / EV e0|e1|xn|xe ... / FLAGS 0|1 ... / END     (disable_message_validation histories)
 """
@@ -44,6 +45,7 @@ def b2f(b: int) -> float:
     return struct.unpack("<d", struct.pack("<Q", b))[0]
 
 
+MSG_MAX = 4096          # whole-message bytes cross the protocol up to this size
 F32MAX = b2f(0x47EFFFFFE0000000)
 F32THR = b2f(0x47EFFFFFF0000000)          # 2^128 - 2^103: first double that rounds to inf
 NAN = 0x7FF8000000000000
@@ -450,7 +452,11 @@ def run_case(cid: str, case: Dict[str, Any]) -> Tuple[List[str], Dict[str, Any]]
     rb = read_back(W, target, name, fty, key) if out == "ok" else []
     lines = [f"CASE {cid} {1 if case['en'] else 0}", "FT " + tok_fty(fty), "KEY " + tok_key(key), "VAL " + tok_val(val),
              "PRE " + hx(pre[off:off + fsz]), "OBS " + out, "POST " + hx(post[off:off + fsz]),
-             f"OUT {1 if outside else 0}", "RB " + " ".join(tok_scalar(r) for r in rb), "END"]
+             f"OUT {1 if outside else 0}", "RB " + " ".join(tok_scalar(r) for r in rb)]
+    if size <= MSG_MAX:
+        # projection `message`: the whole top-level object before / after, and where the field lives in it
+        lines.append(f"MSG {off} {hx(pre)} {hx(post)}")
+    lines.append("END")
     return lines, {"outcome": out, "changed": pre != post}
 
 
